@@ -186,7 +186,7 @@ def _array_kinds(ctx):
             p = getattr(p, "_parent", None)
         ctx.check(guard_ok, ckey(arr.key + ".encode", "typed-length"), n, "count prefix written with the length type under the same type test", "the count prefix is not written under a test that recognises the length type")
     # unbounded
-    unb = any(isinstance(n, ast.If) and isinstance(n.test, ast.Compare) and atom_name(n.test.left) == length_var and isinstance(n.test.ops[0], ast.Is) and any(isinstance(r, ast.Return) and isinstance(r.value, ast.Call) and attr_path(r.value.func) == "cls._decode_all" for s in n.body for r in walk(s)) for n in walk(dec))
+    unb = any(isinstance(n, ast.If) and isinstance(n.test, ast.Compare) and atom_name(n.test.left) == length_var and isinstance(n.test.ops[0], ast.Is) and any(isinstance(r, ast.Call) and attr_path(r.func) == "cls._decode_all" for s in n.body for r in walk(s)) for n in walk(dec))  # (returned directly or bound first; what happens to the result is D6.12's witness)
     ctx.check(unb, ckey(arr.key + ".decode", "unbounded"), dec, "length None decodes to the end of the buffer", "length None no longer selects _decode_all")
 
 
